@@ -84,6 +84,9 @@ FAMILIES = {
     'C15': [
         {'family': 'keepalive', 'knobs': {}, 'quick': 400, 'thorough': 6000},
         {'family': 'keepalive2', 'knobs': {}, 'quick': 150, 'thorough': 2000, 'first': 100000},
+        # keep-alive across connections: the time-out handler reconnects; the new connection must send its keep-alives every
+        # period and detect the next silence again
+        {'family': 'reconnect', 'knobs': {'who': 'on_timeout', 'p_stale_fragments': 0.0}, 'quick': 200, 'thorough': 3000, 'first': 200000},
     ],
     'C16': [
         {'family': 'setup_client', 'knobs': {}, 'quick': 400, 'thorough': 6000},
